@@ -925,12 +925,101 @@ class Translator:
         if 'oguard' in r:
             out.append('(* as_QRF: conjugate partner must have order 1? *)')
             out.append('Definition qrf_oguard : bool := %s.\n' % ('true' if r['oguard'] else 'false'))
+        if 'pair_conjugates' in r:
+            out.append(pair_conjugates_coq(r['pair_conjugates']))
         return '\n'.join(out) + '\n'
+
+
+# ---- lcapy/root.py: pair_conjugates --------------------------------------------------
+def nat_ir(e):
+    """arithmetic over the multiplicities o1, o2 (natural numbers)"""
+    if isinstance(e, ast.Name) and e.id in ('o1', 'o2'):
+        return e.id
+    if isinstance(e, ast.Constant) and isinstance(e.value, int) and e.value >= 0:
+        return '%d' % e.value
+    if isinstance(e, ast.BinOp) and isinstance(e.op, (ast.Add, ast.Sub, ast.Mult)):
+        return '(%s %s %s)' % (nat_ir(e.left), {ast.Add: '+', ast.Sub: '-', ast.Mult: '*'}[type(e.op)], nat_ir(e.right))
+    raise Untranslatable('lcapy/root.py:%s: unrecognised multiplicity expression `%s`' % (getattr(e, 'lineno', '?'), ast.unparse(e)))
+
+
+def translate_pair_conjugates(repo):
+    """pair_conjugates(roots_dict): for a root and a LATER root that are conjugates, both are removed from the
+    singles and, depending on o1 ? o2, a pair of some order is recorded and a leftover is credited to `root`
+    and/or `root_c`.  Returns {'eq'|'gt'|'lt': (pair order, leftover of root, leftover of root_c)} as Coq nat
+    expressions over o1 o2 (the three branches of `if o1 == o2 / elif o1 > o2 / else`).  Fail-closed."""
+    path = os.path.join(repo, 'lcapy', 'root.py')
+    tree = ast.parse(open(path).read())
+    fn = None
+    for n in tree.body:
+        if isinstance(n, ast.FunctionDef) and n.name == 'pair_conjugates':
+            fn = n
+
+    def bad(node, msg):
+        raise Untranslatable('lcapy/root.py:%s: pair_conjugates: %s' % (getattr(node, 'lineno', '?'), msg))
+    if fn is None:
+        raise Untranslatable('lcapy/root.py: pair_conjugates not found')
+    body = [x for x in fn.body if not (isinstance(x, ast.Expr) and isinstance(x.value, ast.Constant))]
+    txt = [ast.unparse(x) for x in body]
+    want_head = ['root_single_dict = roots_dict.copy()', 'root_pair_dict = {}', 'root_list = list(roots_dict)', 'P = {}']
+    if txt[:4] != want_head or txt[-1] != 'return (root_pair_dict, root_single_dict)' or len(body) != 7:
+        bad(fn, 'outer shape changed: %s' % [t.split('\n')[0] for t in txt])
+    if ast.unparse(body[4]) != 'for root in root_list:\n    P[root] = Root(root, 1, damping=damping)':
+        bad(body[4], 'construction of P changed')
+    lp = body[5]
+    if not (isinstance(lp, ast.For) and ast.unparse(lp.target) == '(i, root)' and ast.unparse(lp.iter) == 'enumerate(root_list)' and not lp.orelse):
+        bad(lp, 'outer loop changed')
+    b1 = [x for x in lp.body if not (isinstance(x, ast.Expr) and isinstance(x.value, ast.Constant))]
+    if len(b1) != 2 or ast.unparse(b1[0]) != 'p = P[root]':
+        bad(lp, 'outer loop body changed')
+    lp2 = b1[1]
+    if not (isinstance(lp2, ast.For) and ast.unparse(lp2.target) == 'root_c' and ast.unparse(lp2.iter) == 'root_list[i + 1:]' and not lp2.orelse):
+        bad(lp2, 'inner loop changed')
+    b2 = lp2.body
+    if len(b2) != 2 or ast.unparse(b2[0]) != 'pc = P[root_c]' or not isinstance(b2[1], ast.If) or ast.unparse(b2[1].test) != 'p.is_conjugate_pair(pc)' or b2[1].orelse:
+        bad(lp2, 'conjugate test changed')
+    b3 = b2[1].body
+    t3 = [ast.unparse(x) for x in b3[:4]]
+    if t3 != ['root_single_dict.pop(root, None)', 'root_single_dict.pop(root_c, None)', 'o1 = roots_dict[root]', 'o2 = roots_dict[root_c]'] or len(b3) != 5:
+        bad(b2[1], 'prelude of the pairing step changed: %s' % t3)
+    top = b3[4]
+    if not (isinstance(top, ast.If) and ast.unparse(top.test) == 'o1 == o2' and len(top.orelse) == 1 and isinstance(top.orelse[0], ast.If)
+            and ast.unparse(top.orelse[0].test) == 'o1 > o2' and top.orelse[0].orelse):
+        bad(top, 'branch structure is not `if o1 == o2 / elif o1 > o2 / else`')
+
+    def branch(stmts):
+        pair, lr, lc = '0', '0', '0'
+        for st in stmts:
+            if not (isinstance(st, ast.Assign) and len(st.targets) == 1 and isinstance(st.targets[0], ast.Subscript)):
+                bad(st, 'unrecognised statement `%s`' % ast.unparse(st))
+            tgt = ast.unparse(st.targets[0])
+            val = nat_ir(st.value)
+            if tgt == 'root_pair_dict[root, root_c]':
+                pair = val
+            elif tgt == 'root_single_dict[root]':
+                lr = val
+            elif tgt == 'root_single_dict[root_c]':
+                lc = val
+            else:
+                bad(st, 'unrecognised target `%s`' % tgt)
+        return pair, lr, lc
+    return {'eq': branch(top.body), 'gt': branch(top.orelse[0].body), 'lt': branch(top.orelse[0].orelse),
+            'line': top.lineno, 'sha': hashlib.sha256(open(path, 'rb').read()).hexdigest()}
+
+
+def pair_conjugates_coq(pc):
+    out = ['(* lcapy/root.py pair_conjugates (line %d, sha256 %s): (pair order, leftover credited to root, leftover credited to root_c) *)' % (pc['line'], pc['sha'][:16])]
+    for k in ('eq', 'gt', 'lt'):
+        out.append('Definition pc_%s (o1 o2 : nat) : nat * nat * nat := ((%s)%%nat, (%s)%%nat, (%s)%%nat).' % ((k,) + pc[k]))
+    return '\n'.join(out) + '\n'
 
 
 def translate(repo):
     tr = Translator(os.path.join(repo, 'lcapy', 'ratfun.py'))
     tr.translate()
+    try:
+        tr.result['pair_conjugates'] = translate_pair_conjugates(repo)
+    except Untranslatable as e:
+        tr.result['errors']['pair_conjugates'] = str(e)
     return tr
 
 
